@@ -25,8 +25,25 @@ func init() {
 				count = fmt.Sprint(2 + r.Intn(3))
 			}
 			visual := r.Intn(4) == 0
+			// the operators must agree under any configuration: variables that change what is selected,
+			// highlighted or redisplayed between the keys
+			rc := ""
+			for _, v := range []string{"blink-matching-paren", "enable-active-region", "history-autosuggest", "usage-hint-always", "search-ignore-case"} {
+				if r.Intn(3) == 0 {
+					rc += "set " + v + " on\n"
+				}
+			}
+			if r.Intn(2) == 0 && rc != "" {
+				// put the cursor on a bracket or quote when the buffer has one
+				for i, ch := range []rune(buf) {
+					if (ch == '(' || ch == ')' || ch == '[' || ch == ']' || ch == '"') && r.Intn(2) == 0 {
+						pos = i
+						break
+					}
+				}
+			}
 			mk := func(op string) Spec {
-				sp := Spec{Prompt: "> ", Mode: "vi", Runs: 1, Inject: []Inject{{Seq: `\C-x\C-y0`, Line: buf, Pos: pos}}}
+				sp := Spec{Prompt: "> ", Mode: "vi", Runs: 1, Inputrc: rc, Inject: []Inject{{Seq: `\C-x\C-y0`, Line: buf, Pos: pos}}}
 				keys := []string{"\x1b", "\x18\x190"}
 				if visual {
 					keys = append(keys, "v")
@@ -54,7 +71,7 @@ func init() {
 				mode = "visual"
 			}
 			return Case{Specs: []Spec{mk("d"), mk("y")}, Class: mode + "/" + mot,
-				Meta: map[string]string{"buf": buf, "pos": fmt.Sprint(pos), "motion": mot, "count": count, "mode": mode}}
+				Meta: map[string]string{"buf": buf, "pos": fmt.Sprint(pos), "motion": mot, "count": count, "mode": mode, "inputrc": rc}}
 		},
 		oracle: func(c Case, trs []Trace) []Finding {
 			for _, tr := range trs {
